@@ -83,7 +83,8 @@ type n2hWorld struct {
 
 func genN2HCfg(rc *RunCtx) N2HCfg {
 	r := rc.Rng
-	return N2HCfg{Mode: r.PickS("round-robin", "hostpool", "epsilon-greedy"), Post: r.Chance(1, 2), NDest: r.Pick(1, 2, 3), MaxInFlight: r.Pick(1, 5, 200),
+	// ("all": any value that is not one of the three listed ones selects delivery to EVERY endpoint)
+	return N2HCfg{Mode: r.PickS("round-robin", "hostpool", "epsilon-greedy", "round-robin", "hostpool", "epsilon-greedy", "all"), Post: r.Chance(1, 2), NDest: r.Pick(1, 2, 3), MaxInFlight: r.Pick(1, 5, 200),
 		NPub: r.Pick(1, 3, 100), MsgTOMs: int64(r.Pick(5000, 60000)), YieldProb: uint32(r.Pick(0, 1024, 4096))}
 }
 
@@ -160,17 +161,23 @@ func (w *n2hWorld) serve(s *httpSink, rw http.ResponseWriter, req *http.Request)
 	}
 }
 
+// accepted: an endpoint has answered 2xx for the body - in the deliver-to-all mode: every endpoint has
 func (w *n2hWorld) accepted(body []byte) bool {
 	w.mu.Lock()
 	defer w.mu.Unlock()
+	n := 0
 	for _, s := range w.sinks {
 		for _, b := range s.accepted {
 			if string(b) == string(body) {
-				return true
+				n++
+				break
 			}
 		}
 	}
-	return false
+	if w.cfg.Mode == "all" {
+		return n == len(w.sinks)
+	}
+	return n > 0
 }
 
 func n2hRun(rc *RunCtx) {
